@@ -139,7 +139,7 @@ def r_slit_and_report(ctx: Ctx, model):
                 A_m = 6 * S("m_e") * S("c_l")**2 * pa * pm_ / (pa / ca + pm_ / cm)
                 want = (S("N_A") / (S("R") * T)) * (a["surface_density"] * A_a + m["surface_density"] * A_m) / ((sig * sp.Rational(1, 10**9))**4 * (l - 2 * d0)) * \
                     (sig**4 / (3 * (l - d0)**3) - sig**10 / (9 * (l - d0)**9) - sig**4 / (3 * d0**3) + sig**10 / (9 * d0**9))
-                verdict, wit = decide_zero(sp.simplify(phi - want), symbols_domain={"l": (2, 3), "d_a": (sp.Rational(3, 10), sp.Rational(4, 10)), "d_m": (sp.Rational(3, 10), sp.Rational(4, 10))})
+                verdict, wit = decide_zero(phi - want, symbols_domain={"l": (2, 3), "d_a": (sp.Rational(3, 10), sp.Rational(4, 10)), "d_m": (sp.Rational(3, 10), sp.Rational(4, 10))})
                 ctx.ob(verdict == "zero", Finding("C17.H-slit", fi.where, "slit|potential!=published-equation",
                                                   f"the slit potential built by psd_horvath_kawazoe differs from the published Horvath-Kawazoe equation "
                                                   f"(with Kirkwood-Mueller constants, nm->m factors, N_A/RT); witness {wit}"),
@@ -196,7 +196,7 @@ def r_solver(ctx: Ctx, model):
                     want = (sp.exp(sp.Function("phi")(l) - sf) - p.items[i])**2
                 else:
                     want = (sp.exp(sp.Function("phi")(l)) - p.items[i])**2
-                okobj = decide_zero(sp.simplify((c["objective"] - want).subs(sp.Function("phi")(l), sp.Symbol("PHI", real=True))))[0] == "zero"
+                okobj = decide_zero((c["objective"] - want).subs(sp.Function("phi")(l), sp.Symbol("PHI", real=True)))[0] == "zero"
                 ctx.ob(okobj, Finding("C17.H-solve", fi.where, f"{name}|objective",
                                       f"{name}: objective of point {i} is {c['objective']}; required {want}"),
                        nontrivial_key=(name, "obj", i), sample={"rule": "H-solve", "solver": name, "objective": str(c["objective"])} if i == 0 and npaths == 1 else None)
